@@ -206,7 +206,12 @@ def examine(ctx, cases):
         try:
             td = TimeDomainSolution(circuit, w_max=wmax)
             rng = random.Random(len(ids) * 7919 + int(wmax * 1000))
-            ts = np.array([rng.uniform(0, 20 / max(ws[-1], 0.05)) for _ in range(4)])
+            ts = [rng.uniform(0, 20 / max(ws[-1], 0.05)) for _ in range(3)]
+            # "all evaluation times": negative instants and instants many periods of the slowest line away from the origin
+            pos = [x for x in ws if x > 0]
+            T_low = 2 * np.pi / pos[0] if pos else 1.0
+            ts += [rng.uniform(-3 * T_low, 0), rng.uniform(T_low, 12 * T_low), rng.uniform(12 * T_low, 40 * T_low)]
+            ts = np.array(ts)
 
             def tf(X):
                 return sum(abs(complex(x)) * np.cos(w * ts + np.angle(complex(x))) for x, w in zip(X, ws))
@@ -284,7 +289,7 @@ def run(ctx):
     ctx.assumptions = ['reproduction of a periodic source\'s own waveform up to truncation is not checked here (analytic; C08)']
     if standard_prologue(ctx):
         rng = random.Random(ctx.seed + 9)
-        n = 60 if ctx.tier == 'quick' else 1500
+        n = 120 if ctx.tier == "quick" else 1500
         examine(ctx, [gen_case(rng) for _ in range(n)])
     return RULE
 
